@@ -30,6 +30,16 @@ def is_ascii(s):
     return all(ord(c) < 128 for c in s)
 
 
+def close_ignoring_broken_pipe(stream):
+    # close() flushes buffered data, so it can be the first (or a repeated) write to hit a broken pipe.
+    try:
+        stream.close()
+    except broken_pipe_exception as exc:
+        if broken_pipe_exception == IOError:
+            if exc.errno != EPIPE:
+                raise
+
+
 def read_user_init_code(rbql_init_source_path):
     with open(rbql_init_source_path) as src:
         return src.read()
@@ -300,7 +310,7 @@ class CSVWriter(rbql_engine.RBQLOutputWriter):
         if self.broken_pipe:
             return
         if self.close_stream_on_finish:
-            self.stream.close()
+            close_ignoring_broken_pipe(self.stream)
         else:
             try:
                 self.stream.flush() # This flush still can throw if all flushes before were sucessfull! And the exceptions would be printed anyway, even if it was explicitly catched just couple of lines after.
@@ -573,7 +583,7 @@ def query_csv(query_text, input_path, input_delim, input_policy, output_path, ou
         if close_input_on_finish:
             input_stream.close()
         if close_output_on_finish:
-            output_stream.close()
+            close_ignoring_broken_pipe(output_stream)
         if join_tables_registry:
             join_tables_registry.finish()
             output_warnings += join_tables_registry.get_warnings()
